@@ -9,7 +9,7 @@ from symx.ops import cond, land, lor, lnot, val, ite
 
 PROPERTY = "C10"
 LEVEL = "model_checking"
-TRUSTED = ["z3 5.1 QF_UFBV", "the reference readings of 'least recently used' (ghost timestamps) and of the PLRU tree walk written in this file"]
+TRUSTED = ["z3 5.1 QF_UFBV", "CrossHair 0.0.110 as an independent second engine for associativity <= 4 (a counterexample fails the check; 'not confirmed' within the time budget is only recorded in the quick tier and fails the thorough tier)", "the reference readings of 'least recently used' (ghost timestamps) and of the PLRU tree walk written in this file"]
 ASSUMPTIONS = [
     "LRU pre-state: order list is a permutation of range(n) sorted by strictly increasing ghost timestamps (every reachable state has this form: initial list = index order = never-accessed blocks first)",
     "PLRU pre-state: arbitrary bits; associativity a power of two",
@@ -172,7 +172,33 @@ def h_plru(e, n):
     e.claim("repr-shows-tree-bits", [bool(b) for b in p.get_repr()] == [bool(b) for b in p.tree_array])
 
 
-HARNESSES = {"lru": h_lru, "lru_repr": h_lru_repr, "plru": h_plru}
+def h_crosshair(e, timeout, require_all):
+    """second engine: CrossHair 0.0.110 on PEP316 contracts around the real classes"""
+    import os
+    import re
+    import subprocess
+    import sys
+
+    here = os.path.dirname(os.path.abspath(__file__))
+    target = os.path.join(here, "xh", "c10_contracts.py")
+    env = dict(os.environ)
+    env["PYTHONPATH"] = os.environ.get("VERIF_REPO", "/repo")
+    r = subprocess.run([sys.executable, "-m", "crosshair", "check", "--report_all", "--per_condition_timeout", str(timeout), target], capture_output=True, text=True, env=env, timeout=timeout * 20 + 120)
+    lines = [l for l in (r.stdout + r.stderr).splitlines() if "c10_contracts.py" in l]
+    confirmed = [l for l in lines if "Confirmed over all paths" in l]
+    errors = [l for l in lines if ": error:" in l]
+    other = [l for l in lines if l not in confirmed and l not in errors]
+    e.observe("confirmed", len(confirmed))
+    e.observe("counterexamples", len(errors))
+    e.notes["crosshair_inconclusive"] = len(other)
+    e.claim("crosshair-finds-no-counterexample", not errors, {"errors": [re.sub(r"^.*c10_contracts.py:", "", l)[:200] for l in errors[:3]]})
+    e.claim("crosshair-ran", len(lines) >= 12, {"output": (r.stdout + r.stderr)[-300:]})
+    if require_all:
+        e.claim("crosshair-confirms-all-postconditions", len(confirmed) == len(lines) and len(lines) >= 12, {"not_confirmed": other[:3]})
+    e.claim("canary:crosshair", len(confirmed) > 1000)
+
+
+HARNESSES = {"lru": h_lru, "lru_repr": h_lru_repr, "plru": h_plru, "crosshair": h_crosshair}
 
 
 def jobs(tier, seed):
@@ -181,6 +207,7 @@ def jobs(tier, seed):
         out.append({"label": "lru-access-%d" % n, "harness": "lru", "args": {"n": n}, "cost": n * n})
     for n in range(1, 5 if tier == "quick" else 7):
         out.append({"label": "lru-repr-%d" % n, "harness": "lru_repr", "args": {"n": n}, "cost": n**4, "validate_every": 1 if n < 5 else 9})
+    out.append({"label": "crosshair", "harness": "crosshair", "args": {"timeout": 20 if tier == "quick" else 60, "require_all": tier == "thorough"}, "cost": 1000, "validate": False})
     for n in [1, 2, 4, 8] + ([16] if tier == "thorough" else []):
         out.append({"label": "plru-%d" % n, "harness": "plru", "args": {"n": n}, "cost": n * n, "validate_every": 1 if n < 8 else 11})
     return out
